@@ -69,6 +69,16 @@ func main() {
 		defer os.RemoveAll(core.ScratchRoot)
 		eng.WorkerLoop(tier, func(name string) *eng.Profile { return checks.Profiles[name] }, checks.Custom)
 		os.RemoveAll(core.ScratchRoot)
+	case "racepass":
+		// vmc racepass <harness prefix> <rounds> <seed>   (in the -race binary)
+		rounds, seed := 100, int64(0)
+		if len(os.Args) > 3 {
+			fmt.Sscan(os.Args[3], &rounds)
+		}
+		if len(os.Args) > 4 {
+			fmt.Sscan(os.Args[4], &seed)
+		}
+		checks.RaceMain(os.Args[2], rounds, seed)
 	case "replay":
 		if len(os.Args) < 3 {
 			usage()
